@@ -379,6 +379,38 @@ func donor(g *RNG, idx []string) *donorParts {
 
 var synthBase = time.Date(2010, 1, 1, 0, 0, 0, 0, time.UTC)
 
+// synthOddInstant: now and then an object's own date is an unusual one - centuries away (before 1678 and
+// after 2262 an instant no longer fits a 64-bit count of nanoseconds), the epoch, or within days of a
+// daylight-saving change of some zone (where "ten days later" is a different instant in local calendar
+// arithmetic than in UTC).
+func synthOddInstant(g *RNG, t time.Time) time.Time {
+	switch k := g.Intn(100); {
+	case k < 3:
+		return time.Date(pick(g, []int{1600, 1677, 1678, 1900, 1969, 1970, 2262, 2263, 2300, 2500, 9999}), time.Month(1+g.Intn(12)), 1+g.Intn(28), g.Intn(24), g.Intn(60), g.Intn(60), 0, time.UTC)
+	case k < 11:
+		// the last Sundays of March / October (EU), second Sunday of March / first of November (US), first Sundays of April / October (AU)
+		y := pick(g, []int{2019, 2021, 2023, 2024, 2025, 2026})
+		var days []time.Time
+		sunday := func(m time.Month, nth int) time.Time { // nth Sunday of the month (nth<0: last)
+			d := time.Date(y, m, 1, 0, 0, 0, 0, time.UTC)
+			for d.Weekday() != time.Sunday {
+				d = d.AddDate(0, 0, 1)
+			}
+			if nth < 0 {
+				for d.AddDate(0, 0, 7).Month() == m {
+					d = d.AddDate(0, 0, 7)
+				}
+				return d
+			}
+			return d.AddDate(0, 0, 7*(nth-1))
+		}
+		days = append(days, sunday(time.March, -1), sunday(time.October, -1), sunday(time.March, 2), sunday(time.November, 1), sunday(time.April, 1), sunday(time.October, 1))
+		d := pick(g, days)
+		return d.AddDate(0, 0, -g.Intn(11)).Add(time.Duration(g.Intn(24*3600)) * time.Second)
+	}
+	return t
+}
+
 // synthCert draws one synthetic certificate; nil if the real parser rejects every attempt.
 func synthCert(g *RNG, idx []string) *ObjSpec {
 	d := donor(g, idx)
@@ -482,6 +514,9 @@ func synthCert(g *RNG, idx []string) *ObjSpec {
 		if arch == "tls-removed-tld" {
 			nb = time.Date(2017, 1, 1, 0, 0, 0, 0, time.UTC).Add(time.Duration(g.Intn(5*365*24)) * time.Hour)
 		}
+		if arch != "tls-removed-tld" {
+			nb = synthOddInstant(g, nb)
+		}
 		if arch == "idn" && g.Chance(0.8) {
 			nb = time.Date(2018, 6, 1, 0, 0, 0, 0, time.UTC).Add(time.Duration(g.Intn(6*365*24)) * time.Hour)
 		}
@@ -518,6 +553,18 @@ func synthCert(g *RNG, idx []string) *ObjSpec {
 				if g.Chance(0.5) {
 					inner = nil
 					forcedPol = nil
+				}
+			}
+			if g.Chance(0.25) {
+				// several mailbox entries, an empty one among them (first, in the middle or last)
+				extra := [][]byte{ctxPrim(1, nil), ctxPrim(1, []byte(pick(g, []string{"c@example.net", "a@example.com"})))}
+				if g.Chance(0.5) {
+					extra[0], extra[1] = extra[1], extra[0]
+				}
+				if g.Chance(0.6) {
+					mailbox = append(append(extra[0], mailbox...), extra[1]...)
+				} else {
+					mailbox = append(mailbox, append(extra[0], extra[1]...)...)
 				}
 			}
 			add(dext("2.5.29.17", g.Chance(0.1), dseq(mailbox, inner)))
@@ -577,6 +624,40 @@ func synthCert(g *RNG, idx []string) *ObjSpec {
 				}
 			}
 			add(dext("2.5.29.19", g.Chance(0.7), dseq(parts...)))
+		}
+		if isCA && g.Chance(0.35) {
+			// name constraints: permitted / excluded subtrees of names and of address blocks, written canonically
+			// or with host bits set, reserved or public
+			subtree := func() []byte {
+				switch g.Intn(4) {
+				case 0:
+					return dseq(ctxPrim(2, []byte(pick(g, []string{"example.com", ".example.com", "", "xn--9ca.example", "EXAMPLE.org"}))))
+				case 1:
+					return dseq(ctxPrim(1, []byte(pick(g, []string{"example.com", "a@example.com", ".example.org"}))))
+				case 2:
+					return dseq(ctxPrim(6, []byte(pick(g, []string{".example.com", "example.com"}))))
+				}
+				ipm := pick(g, [][]byte{{10, 0, 0, 0, 255, 0, 0, 0}, {11, 22, 33, 44, 255, 255, 0, 0}, {192, 168, 1, 77, 255, 255, 255, 0}, {8, 8, 8, 8, 255, 255, 255, 255},
+					{100, 64, 3, 1, 255, 192, 0, 0}, {0, 0, 0, 0, 0, 0, 0, 0}, {203, 0, 113, 9, 255, 255, 255, 128},
+					{0x20, 0x01, 0x0d, 0xb8, 0, 0, 0, 1, 0, 0, 0, 0, 0, 0, 0, 9, 255, 255, 255, 255, 0, 0, 0, 0, 0, 0, 0, 0, 0, 0, 0, 0}})
+				return dseq(ctxPrim(7, ipm))
+			}
+			var nc [][]byte
+			if g.Chance(0.8) {
+				var st [][]byte
+				for k := g.Range(1, 3); k > 0; k-- {
+					st = append(st, subtree())
+				}
+				nc = append(nc, ctxCons(0, st...))
+			}
+			if g.Chance(0.4) || len(nc) == 0 {
+				var st [][]byte
+				for k := g.Range(1, 2); k > 0; k-- {
+					st = append(st, subtree())
+				}
+				nc = append(nc, ctxCons(1, st...))
+			}
+			add(dext("2.5.29.30", g.Chance(0.8), dseq(nc...)))
 		}
 		if len(forcedPol) > 0 || g.Chance(0.75) {
 			var pols [][]byte
@@ -716,7 +797,7 @@ func synthCRL(g *RNG, idx []string) *ObjSpec {
 		return nil
 	}
 	for tries := 0; tries < 8; tries++ {
-		this := synthBase.Add(time.Duration(g.Intn(17*365*24)) * time.Hour)
+		this := synthOddInstant(g, synthBase.Add(time.Duration(g.Intn(17*365*24))*time.Hour))
 		parts := [][]byte{dint(big.NewInt(1)), d.sigAlg, d.issuer, dtime(this, g.Chance(0.05))}
 		if g.Chance(0.85) {
 			parts = append(parts, dtime(this.Add(time.Duration(pick(g, []int{1, 7, 10, 30, 200, 366, 400}))*24*time.Hour), g.Chance(0.05)))
@@ -727,7 +808,7 @@ func synthCRL(g *RNG, idx []string) *ObjSpec {
 		bigList := g.Chance(0.05) || synthForceBigCRL
 		dups := map[int]int{} // position -> serial repeated there (one or several repeated serials, near and far apart)
 		if bigList {
-			nRev = pick(g, []int{1200, 4500, 4500, 9000})
+			nRev = pick(g, []int{1200, 4500, 4500, 9000, 40000})
 			if synthForceCRLEntries > 0 {
 				nRev = synthForceCRLEntries
 			}
@@ -736,6 +817,14 @@ func synthCRL(g *RNG, idx []string) *ObjSpec {
 					at := g.Range(nRev/2, nRev-1)
 					dups[at] = 1 + g.Intn(at)
 				}
+			}
+		}
+		// in a large list a few entries far apart carry reason codes and other entry extensions (what the first
+		// part of the list holds and what a later part holds differ)
+		coded := map[int]bool{}
+		if bigList && g.Chance(0.6) {
+			for k := g.Range(1, 6); k > 0; k-- {
+				coded[g.Intn(nRev)] = true
 			}
 		}
 		var revs [][]byte
@@ -749,7 +838,7 @@ func synthCRL(g *RNG, idx []string) *ObjSpec {
 				if of, ok := dups[i]; ok {
 					serial = big.NewInt(int64(of))
 				}
-				if i >= 8 {
+				if i >= 8 && !coded[i] {
 					// plain entries after the first few: serial and date only
 					revs = append(revs, dseq(dint(serial), dtime(this.Add(-time.Duration(i%1000)*time.Hour), false)))
 					continue
